@@ -182,6 +182,14 @@ def plan(tier, rng, sl, nslices, stats):
                 b["prods"] = [[0, []]]          # epsilon-only language
             elif r < 0.26:
                 b["prods"] = [[0, [["V", 0], ["T", 0]]]]    # empty language
+        if rng.random() < 0.15:
+            # the receiver already owns variables spelled like the fresh names of substitute (X#SUBS#k)
+            a["vc"] = "reserved"
+            a["nv"] = max(a["nv"], 4)
+            a["prods"].append([3, [["T", 0]]])
+            a["prods"].append([0, [["V", 3], ["T", 0]]])
+            if b is not None:
+                b["vc"] = "str"
         yield {"a": a, "b": b, "warm": rng.random() < 0.5}
 
 
@@ -219,4 +227,10 @@ def run_case(c, stats):
     ok, u = call(A.union, B)
     if ok:
         call(u.concatenate, A)       # operations on results (renamed variables)
+    ok, s1 = call(A.substitute, {ta: B})
+    if ok:
+        # substitute on a result of substitute: its variables already carry #SUBS# suffixes
+        for t in list(s1.terminals)[:2]:
+            call(s1.substitute, {t: B})
+            call(s1.substitute, {t: A})
     return nt
